@@ -32,6 +32,8 @@ TAILS = [
     ('usermac-verbatim-body', '\\newcommand{\\yl}{\\begin{verbatim}long verbatim\ntext\\end{verbatim}}\n', '\\yl'),
     ('usermac-special-body', '\\newcommand{\\yl}[1]{#1\\]\\)}\n', '\\yl a'),
     ('usermac-special-body2', '\\def\\yl{\\(\\[}\n', '\\yl'),
+    ('usermac-comment-arg', '\\newcommand{\\yt}[1]{"#1"}\n\\newcommand{\\yl}{\\yt{%\n   inner}}\n', '\\yl'),
+    ('usermac-comment-arg2', '\\newcommand{\\yt}[2]{(#1)#2.}\n\\newcommand{\\yl}[1]{\\yt{#1 %c\n}{% c\n x}}\n', '\\yl{a}'),
     ('usermac-default', '\\newcommand{\\yl}[2][a long default text]{#1 #2}\n', '\\yl{x}'),
     ('usermac-default-only', '\\newcommand{\\yl}[1][a long default text   here]{#1}\n', '\\yl'),
     ('def-long-body', '\\def\\yl#1{long body #1 of the def macro}\n', '\\yl x'),
@@ -153,14 +155,15 @@ class C01(core.Check):
                     idx += 1
                     if idx % nshards != shard:
                         continue
-                    yield dict(fam='tail', tail=t, head=hd, trail=tr,
+                    yield dict(fam='tail', tail=t, head=hd, trail=tr, route=['doc', 'defs', 'ltinput'][idx % 3],
                                lang=rnd.choice(['en', 'de', 'ru']), ml=rnd.random() < .3, seqs=rnd.random() < .2)
         i = 0
         while i < n:
             for _ in range(60):
                 yield dict(fam='tail', tail=rnd.randrange(len(TAILS)), head=rnd.randrange(len(HEADS)),
                            trail=rnd.randrange(len(TRAIL)), lang=rnd.choice(['en', 'de', 'ru']),
-                           ml=rnd.random() < .3, seqs=rnd.random() < .2, tail2=rnd.randrange(len(TAILS)))
+                           ml=rnd.random() < .3, seqs=rnd.random() < .2, tail2=rnd.randrange(len(TAILS)),
+                           route=rnd.choice(['doc', 'doc', 'defs', 'ltinput']))
             for _ in range(40):
                 yield dict(fam='soup', src=gsoup.soup(rnd), opts=gsoup.rand_opts(rnd), ml=rnd.random() < .3)
             for _ in range(80):
@@ -203,8 +206,20 @@ class C01(core.Check):
                 n2, pre2, cons2 = TAILS[case['tail2']]
                 if not pre2.startswith('@') and 'cleveref' not in pre2 and '\\yl' not in pre2 and '{yt}' not in pre2:
                     mid = cons2 + ' '
+            opts = dict(lang=case['lang'], pack=pack, seqs=case.get('seqs', False))
+            route = case.get('route', 'doc')
+            if route != 'doc' and pre and 'usepackage' not in pre:
+                pad = '% padding line of the definitions text, which is longer than the document\n' * 6
+                if route == 'defs':
+                    opts['defs'] = pad + pre
+                    pre = ''
+                else:
+                    fn = os.path.join(self.tmp, 'tail%d.tex' % case['tail'])
+                    with open(fn, 'w', encoding='utf-8') as f:
+                        f.write(pad + pre)
+                    pre = '\\LTinput{%s}' % fn
             src = pre + HEADS[case['head']] + mid + cons + TRAIL[case['trail']]
-            return src, dict(lang=case['lang'], pack=pack, seqs=case.get('seqs', False)), case['ml']
+            return src, opts, case['ml']
         if fam == 'soup':
             return case['src'], dict(case['opts']), case['ml']
         if fam == 'doc':
